@@ -149,6 +149,7 @@ type sysEnv struct {
 	nextID  uint32
 	cold    int
 	pair    int
+	shedNames []*client
 	serial  int
 	maxLat  time.Duration
 	inline  bool
@@ -432,14 +433,18 @@ func newSysEnv(kind string, dedupTimeout time.Duration) *sysEnv {
 	cfg.Directory = e.dir
 	cfg.DNSSEC = "off"
 	cfg.Bind = fmt.Sprintf("127.0.0.1:%d", freePort())
-	cfg.RecursionFirewall.FailureCacheMinTTL.Duration = 2 * time.Second
-	cfg.RecursionFirewall.FailureCacheMaxTTL.Duration = 4 * time.Second
+	// long enough that a failure wrongly admitted to the shared RFC 9520 cache is still
+	// there when the same name is asked again later in the wave (`sys shift` expires them)
+	cfg.RecursionFirewall.FailureCacheMinTTL.Duration = 10 * time.Second
+	cfg.RecursionFirewall.FailureCacheMaxTTL.Duration = 20 * time.Second
 	switch kind {
 	case "i": // tiny ingress pool: queries queue behind two workers / run on overflow goroutines
 		cfg.IngressWorkers = 2
 		cfg.IngressQueue = 1
-	case "r": // tiny resolver limits: capacity-refused resolutions
+	case "r": // tiny resolver limits: capacity-refused resolutions (the global pool binds)
 		cfg.MaxConcurrentQueries = 6
+	case "z": // the per-zone quota (max(32/16, 16) = 16) binds before the global pool (32)
+		cfg.MaxConcurrentQueries = 32
 	}
 	cfg.IngressTCPConns = 256
 	e.cfg = cfg
@@ -498,6 +503,7 @@ type reply struct {
 }
 
 type client struct {
+	mu      sync.Mutex
 	kind    string // udp | tcp | tcpclose | msg | msgcancel
 	zone    string // fault
 	name    string
@@ -512,6 +518,7 @@ type client struct {
 	cancelAfter time.Duration
 	startDelay  time.Duration
 	cancelled   bool
+	reask       *client // shedreask: the same name asked again after the burst
 }
 
 func (e *sysEnv) newQuery(c *client) *dns.Msg {
@@ -552,7 +559,9 @@ func (c *client) note(b []byte, at time.Duration) {
 		c.other++
 		return
 	}
+	c.mu.Lock()
 	c.replies = append(c.replies, reply{at: at, rcode: m.Rcode, ans: canonAnswer(m), ede: edeOf(m)})
+	c.mu.Unlock()
 }
 
 func (e *sysEnv) runUDP(c *client, listen time.Duration) {
@@ -888,6 +897,10 @@ func (e *sysEnv) build(g *group) {
 		for i := 0; i < g.n; i++ {
 			add(e.mk("udp", "ok", fmt.Sprintf("stagedho%dx%s", i, g.tag), dns.TypeTXT), true)
 		}
+	case "shedreask": // more distinct questions for one slow healthy zone than the limiter admits; the shed names are asked again once capacity is back
+		for i := 0; i < g.n; i++ {
+			add(e.mk("udp", g.zone, lbl(i), dns.TypeA), true)
+		}
 	case "junk": // datagrams that are not admitted queries (oversized, short, QR, bad counts …)
 		for i := 0; i < g.n; i++ {
 			add(e.mk("junk", g.zone, same, dns.TypeA), false)
@@ -1043,6 +1056,18 @@ func (e *sysEnv) judge(gs []*group) verdict {
 				fail("sys/foreign-message/"+kind, fmt.Sprintf("%s name=%s n=%d", where, c.name, c.other))
 			}
 		}
+		if g.pattern == "shedreask" {
+			// remember the names that were refused: `sys drain` asks them again once the
+			// load has stopped — capacity-refused must stay with the client that was refused
+			shed := 0
+			for _, c := range g.clients {
+				if len(c.replies) == 1 && c.replies[0].rcode == dns.RcodeServerFailure {
+					shed++
+					e.shedNames = append(e.shedNames, c)
+				}
+			}
+			v.tags = append(v.tags, fmt.Sprintf("shed=%d", shed))
+		}
 		if softHit {
 			v.soft = append(v.soft, g)
 		}
@@ -1106,7 +1131,7 @@ func execSys(f []string) vlib.Res {
 			return vlib.Res{Impl: "bad-op"}
 		}
 		closeAll()
-		if f[2] != "n" && f[2] != "i" && f[2] != "r" {
+		if f[2] != "n" && f[2] != "i" && f[2] != "r" && f[2] != "z" {
 			return vlib.Res{Impl: "bad-op"}
 		}
 		env = newSysEnv(f[2], time.Duration(vlib.Atoi(f[3]))*time.Millisecond)
@@ -1252,6 +1277,34 @@ func execSys(f []string) vlib.Res {
 				}
 			}
 		}
+		// … the names that were capacity-refused during the load resolve now (the zone is
+		// healthy): a refusal is for the refused client only, never shared state
+		stillFailing := 0
+		for try := 0; try < 2 && len(e.shedNames) > 0; try++ {
+			var pg group
+			for _, c := range e.shedNames {
+				pg.clients = append(pg.clients, &client{kind: "udp", zone: c.zone, name: c.name, qtype: c.qtype, id: e.id()})
+			}
+			for i := 0; i < len(pg.clients); i += 4 { // a few at a time: the limits are tiny
+				j := i + 4
+				if j > len(pg.clients) {
+					j = len(pg.clients)
+				}
+				e.launchShort([]*group{{clients: pg.clients[i:j]}}, e.qto+500*time.Millisecond)
+			}
+			stillFailing = 0
+			var rest []*client
+			for _, c := range pg.clients {
+				if !(len(c.replies) == 1 && c.replies[0].rcode == dns.RcodeSuccess) {
+					stillFailing++
+					rest = append(rest, c)
+				}
+			}
+			e.shedNames = rest
+		}
+		reasked := len(e.shedNames)
+		e.shedNames = nil
+		_ = reasked
 		// … and every resolver limiter is empty again
 		var sa, sl, sp, s6, sz int
 		waitFor(5*time.Second, func() bool {
@@ -1265,6 +1318,8 @@ func execSys(f []string) vlib.Res {
 		switch {
 		case leasedNow > e.baseLeased:
 			or = fmt.Sprintf("FAIL sig=sys/drain/slab-lease-leaked idle=%d now=%d", e.baseLeased, leasedNow)
+		case stillFailing > 0:
+			or = fmt.Sprintf("FAIL sig=sys/drain/shed-failure-served-to-later-client still-failing=%d", stillFailing)
 		case sa+sl+sp+s6+sz != 0:
 			or = fmt.Sprintf("FAIL sig=sys/drain/limiter-slot-leaked attempts=%d/%d lookups=%d probes=%d v6=%d zones=%d", sa, resolver.VerifC11AttemptCap(e.res), sl, sp, s6, sz)
 		case healthy != 3:
@@ -1277,6 +1332,39 @@ func execSys(f []string) vlib.Res {
 			or = fmt.Sprintf("FAIL sig=sys/drain/goroutine-leak base=%d now=%d", e.baseG, g)
 		}
 		return vlib.Res{Impl: "drained", Oracle: or, Tags: fmt.Sprintf("nt,quiesce_ms=%d,g=%d,baseg=%d,gall=%d,maxlat_ms=%d", qd.Milliseconds(), g, e.baseG, all, e.maxLat.Milliseconds())}
+	case "nsaddr": // sys nsaddr <first|last>: lookupV4Nss of a glue-less delegation with two NS hosts, the
+		// address lookup of the first / last sorted one shed by the zone limiter, the other failing ordinarily
+		if env == nil || len(f) != 3 {
+			return vlib.Res{Impl: "bad-op"}
+		}
+		e := env
+		e.serial++
+		shedHost, badHost := fmt.Sprintf("a%d.nsz.test.", e.serial), fmt.Sprintf("z%d.refused.test.", e.serial)
+		if f[2] == "last" {
+			shedHost, badHost = fmt.Sprintf("z%d.nsz.test.", e.serial), fmt.Sprintf("a%d.refused.test.", e.serial)
+		}
+		// make sure the delegation of nsz.test. is known, then fill its quota
+		w := e.mk("udp", "nsz", fmt.Sprintf("warm%d", e.serial), dns.TypeA)
+		w.name = fmt.Sprintf("warm%d.nsz.test.", e.serial)
+		e.runUDPUntilReply(w, e.qto)
+		_, release := resolver.VerifC11ZoneHold(e.res, "nsz.test.", 1000)
+		ctx, cancel := context.WithTimeout(context.Background(), e.qto)
+		servers, err := resolver.VerifC11LookupV4Nss(e.res, ctx, fmt.Sprintf("kid%d.test.", e.serial), []string{shedHost, badHost})
+		cancel()
+		release()
+		impl := fmt.Sprintf("servers=%d err=%s", servers, map[bool]string{true: "nil", false: "set"}[err == nil])
+		or := "ok"
+		switch {
+		case servers != 0:
+			or = "FAIL sig=sys/nsaddr/unexpected-server"
+		case err == nil:
+			// our own refusal (plus an ordinary failure) produced no server: that is not evidence
+			// about the child zone and must come back as the refusal it is
+			or = "FAIL sig=sys/nsaddr/capacity-refusal-reported-as-unreachable-zone shed-host=" + f[2]
+		case !middleware.IsRequestLocalResolutionError(err):
+			or = "FAIL sig=sys/nsaddr/refusal-not-request-local err=" + err.Error()
+		}
+		return vlib.Res{Impl: impl, Oracle: or, Tags: "nt"}
 	case "log": // debugging aid: what one zone's server was asked
 		if env == nil || len(f) != 3 {
 			return vlib.Res{Impl: "bad-op"}
